@@ -76,6 +76,7 @@ type abSide struct {
 	closeAt       time.Duration
 	shutAt        time.Duration
 	unreadAtClose bool
+	quietClose    bool        // Close found nothing unread and nothing on its way: all that is left is the closing handshake
 	ch            chan func() // operations posted to this side's application goroutine
 }
 
@@ -338,6 +339,13 @@ func (w *ABWorld) onEmit(f *Frame) {
 		c.clientAcksTried++
 	}
 	if seg.Flags&0x04 != 0 {
+		if x := c.s[side]; x != nil && x.closed && x.quietClose && c.rstSent[1-side] == 0 && w.faultsFired() == 0 && time.Since(w.T0)-x.closeAt < 2900*time.Millisecond && f.ID >= 0 {
+			// "when no packet of the closing exchange is lost both endpoints end ... without error": this side's
+			// application closed with nothing unread and nothing on its way, the peer has sent no data since, no
+			// packet was lost - and its stack answers the closing handshake with a reset (the abort this stack arms
+			// at Close comes 3 s later and is finding F9's business)
+			w.Fail("reset-after-orderly-close", "", "connection %d: side %d closed its socket %v ago with nothing unread and nothing in flight, no packet was lost in this run, yet its stack sends a reset (seq=%d) into the closing handshake", c.id, side, time.Since(w.T0)-x.closeAt, seg.Seq)
+		}
 		c.rstSent[side]++
 		if c.haveNxt[side] && int32(seg.Seq-c.nxt[side]) < 0 {
 			c.rstStale[side]++
@@ -530,6 +538,11 @@ func (w *ABWorld) write(ci, si, n int) {
 		s.wblocked = true
 	}
 	s.accepted += int64(got)
+	if got > 0 {
+		if o := c.s[1-si]; o != nil && o.closed {
+			o.quietClose = false // data for a closed socket: a reset is the answer
+		}
+	}
 	if isHard(err) {
 		s.hardErr = err
 	}
@@ -649,6 +662,9 @@ func (w *ABWorld) closeSide(ci, si int) {
 		// only a Close by a side that has read the peer's end-of-stream and whose own bytes the peer's
 		// application has all read leaves nothing but the closing handshake to do
 		c.unclean = true
+	}
+	if peer := w.conns[ci].s[1-si]; !s.unreadAtClose && peer != nil && peer.accepted == s.read && s.hardErr == nil && peer.hardErr == nil && w.pendingAsync == 0 {
+		s.quietClose = true
 	}
 	s.ep.Close()
 	s.closed = true
